@@ -266,6 +266,27 @@ class CFG:
                     st.pop()
         return False
 
+    def cycle_through(self, header, blocks, removed):
+        """is there still a cycle through `header` inside `blocks` once `removed` blocks are deleted?
+        (cycles of inner loops that do not pass the header are ignored)"""
+        blocks = set(blocks)
+        removed = set(removed)
+        if header in removed:
+            return False
+        seen = set()
+        st = [y for y in self.succ[header] if y in blocks and y not in removed]
+        while st:
+            x = st.pop()
+            if x == header:
+                return True
+            if x in seen:
+                continue
+            seen.add(x)
+            for y in self.succ[x]:
+                if y in blocks and y not in removed:
+                    st.append(y)
+        return False
+
     # ----------------------------------------------------- control dependence
     def control_deps(self):
         """block -> set of (switch block, successor) edges it is control dependent on"""
